@@ -958,6 +958,11 @@ pub const INDEP_TEMPLATES: &[&str] = &[
     "a := [1.5, 2.5]~ $+; b := [0.5]~ $*; (a, b)",
     "a := [\"x\", \"y\"]~ $+; a",
     "a := [2, 3]~ $*; b := [true, false]~ $&&; c := [1, 2]~ $|; (a, b, c)",
+    // deep (but bounded) recursion in several threads at once: what one thread may do does not
+    // depend on how deep the others are
+    "f := (n: int) -> int { if n <= 0 { return 0 } return 1 + f(n - 1) }; f(200)",
+    "g := (n: int, acc: int) -> int { if n <= 0 { return acc } return g(n - 1, acc + n) }; g(180, 0)",
+    "fib := (n: int) -> int { if n < 2 { return n } return fib(n - 1) + fib(n - 2) }; d := (n: int) -> int { if n <= 0 { return fib(6) } return d(n - 1) }; d(150)",
 ];
 
 fn run_shared_code(sc: &Scenario, mut rep: RunReport) -> RunReport {
@@ -1378,6 +1383,7 @@ pub fn gen_concurrent(seed: u64, boot_seed: u64, run: u64) -> Scenario {
         allow_self: rng.chance(1, 3),
         allow_pull: rng.chance(1, 4),
         pull_heavy: !repoint && !transfer_heavy && rng.chance(1, 12),
+        cn_heavy: !repoint && !transfer_heavy && rng.chance(1, 12),
     };
     let mut unique = 1000 * (1 + rng.below(50) as i64);
     let ops_per = 1 + rng.below(4);
@@ -1404,6 +1410,7 @@ pub fn gen_sequential(seed: u64, boot_seed: u64, run: u64) -> Scenario {
         allow_self: rng.chance(1, 2),
         allow_pull: rng.chance(1, 3),
         pull_heavy: false,
+        cn_heavy: false,
     };
     let mut unique = 100 * (1 + rng.below(50) as i64);
     let n = 5 + rng.below(36);
